@@ -214,10 +214,11 @@ def verify_unit(unit, world_factory, timeout_s=10, max_paths=4000):
             if d['status'] == 'sat':
                 entry['model'] = d['model']
                 rp = ob['meta'].get('replay') or unit.replay_fn
-                if rp is not None and d.get('model_obj') is not None:
+                # a replay that builds its own witness (model_free) also runs when the back end gave a verdict without a model (cvc5 on strings)
+                if rp is not None and (d.get('model_obj') is not None or getattr(rp, 'model_free', False)):
                     try:
                         state = p['result'] if isinstance(p['result'], dict) else {}
-                        entry['replay'] = rp(d['model_obj'], state, ob)
+                        entry['replay'] = rp(d.get('model_obj'), state, ob)
                     except Exception as e:
                         entry['replay'] = {'failed': None, 'error': '%s: %s' % (type(e).__name__, e),
                                            'trace': traceback.format_exc()[-1500:]}
